@@ -516,9 +516,35 @@ func (ex *Exec) convert(st *State, v Val, to types.Type) Val {
 	if ts.K == KInt && v.S.K == KReal {
 		return Val{T: app("to_int", v.T), S: SInt, GoT: to}
 	}
-	// string <-> []byte / []rune and similar: unknown value of the target type
-	ex.assumptions["string/[]byte conversions are havocked"] = true
+	// string <-> []byte: related through the uninterpreted bstr (the string spelled by the bytes of a slice
+	// VALUE): []byte(s) is some slice b with bstr(b) == s, string(b) is bstr(b). Lengths and elements are
+	// not linked.
+	if isByteSlice(to) && v.S.K == KString {
+		b := ex.freshWf(st, "bytes", to)
+		st.assume(eq(ex.bstr(b), v.T))
+		return b
+	}
+	if ts.K == KString && v.GoT != nil && isByteSlice(v.GoT) {
+		return Val{T: ex.bstr(v), S: SString, GoT: to}
+	}
+	// []rune and similar: unknown value of the target type
+	ex.assumptions["string/[]rune conversions are havocked"] = true
 	return ex.freshWf(st, "conv", to)
+}
+
+// bstr: the string spelled by the bytes of a slice value (uninterpreted function of the value).
+func (ex *Exec) bstr(b Val) string {
+	ex.declare("(declare-fun bstr (" + b.S.Name + ") String)")
+	return app("bstr", b.T)
+}
+
+func isByteSlice(t types.Type) bool {
+	s, ok := under(t).(*types.Slice)
+	if !ok {
+		return false
+	}
+	b, ok := under(s.Elem()).(*types.Basic)
+	return ok && b.Kind() == types.Uint8
 }
 
 // ---------- calls ----------
@@ -749,10 +775,16 @@ func (ex *Exec) finishCall(st *State, pc *preparedCall, k func(*State, []Val)) {
 		return
 	}
 	if sel, ok := unparen(call.Fun).(*ast.SelectorExpr); ok && pc.funVal != nil && ex.pureCallbackField(sel.Sel.Name) {
+		if ex.countsCallbacks() && ex.fc.CountedPure[sel.Sel.Name] {
+			ex.recordCallbackCall(st, pc)
+		}
 		k(st, ex.callbackApp(*pc.funVal, sel.Sel.Name, pc.sig, pc.args))
 		return
 	}
 	if id, ok := unparen(call.Fun).(*ast.Ident); ok && pc.funVal != nil && ex.pureCallbackField(id.Name) {
+		if ex.countsCallbacks() && ex.fc.CountedPure[id.Name] {
+			ex.recordCallbackCall(st, pc)
+		}
 		k(st, ex.callbackApp(*pc.funVal, id.Name, pc.sig, pc.args))
 		return
 	}
@@ -818,28 +850,7 @@ func (ex *Exec) resultVals(st *State, sig *types.Signature, hint string) []Val {
 // reachable by the callee is havocked.
 func (ex *Exec) unknownCall(st *State, pc *preparedCall, what string, k func(*State, []Val)) {
 	if pc.fn == nil && pc.funVal != nil && ex.countsCallbacks() {
-		// opt-in bookkeeping of calls through function values (functions whose contract lists
-		// ghost.cbCalls in modifies): how often each function value was called, and on which references
-		ex.intrinsics["calls through function values are counted in ghost.cbCalls and their reference arguments recorded in ghost.cbArgs"] = true
-		gc, ga := ex.cs.Ghost["cbCalls"], ex.cs.Ghost["cbArgs"]
-		if gc != nil && ga != nil {
-			oc := ex.ghostGet(st, gc)
-			cur := app("select", app("m-val", oc.T), pc.funVal.T)
-			st.ghost["cbCalls"] = mapStore(oc, pc.funVal.T, app("+", cur, "1")).T
-			oa := ex.ghostGet(st, ga)
-			t := oa.T
-			for i, a := range pc.args {
-				if a.S.K == KRef {
-					t = app("store", t, a.T, "true")
-					// per-position sets cbArg0, cbArg1, ... where declared
-					if gp := ex.cs.Ghost[fmt.Sprintf("cbArg%d", i)]; gp != nil {
-						op := ex.ghostGet(st, gp)
-						st.ghost[gp.Name] = app("store", op.T, a.T, "true")
-					}
-				}
-			}
-			st.ghost["cbArgs"] = t
-		}
+		ex.recordCallbackCall(st, pc)
 	}
 	if pc.fn == nil && funcValueIsSink(pc.sig) {
 		// a callback returning error is treated as an I/O sink: it raises ghost.fail iff it reports an error
@@ -867,6 +878,32 @@ func (ex *Exec) unknownCall(st *State, pc *preparedCall, what string, k func(*St
 		}
 	}
 	k(st, ex.resultVals(st, pc.sig, shortKey(what)))
+}
+
+// recordCallbackCall: opt-in bookkeeping of calls through function values (functions whose contract lists
+// ghost.cbCalls in modifies): how often each function value was called, and on which references.
+func (ex *Exec) recordCallbackCall(st *State, pc *preparedCall) {
+	ex.intrinsics["calls through function values are counted in ghost.cbCalls and their reference arguments recorded in ghost.cbArgs"] = true
+	gc, ga := ex.cs.Ghost["cbCalls"], ex.cs.Ghost["cbArgs"]
+	if gc == nil || ga == nil {
+		return
+	}
+	oc := ex.ghostGet(st, gc)
+	cur := app("select", app("m-val", oc.T), pc.funVal.T)
+	st.ghost["cbCalls"] = mapStore(oc, pc.funVal.T, app("+", cur, "1")).T
+	oa := ex.ghostGet(st, ga)
+	t := oa.T
+	for i, a := range pc.args {
+		if a.S.K == KRef {
+			t = app("store", t, a.T, "true")
+			// per-position sets cbArg0, cbArg1, ... where declared
+			if gp := ex.cs.Ghost[fmt.Sprintf("cbArg%d", i)]; gp != nil {
+				op := ex.ghostGet(st, gp)
+				st.ghost[gp.Name] = app("store", op.T, a.T, "true")
+			}
+		}
+	}
+	st.ghost["cbArgs"] = t
 }
 
 func (ex *Exec) countsCallbacks() bool {
@@ -1140,8 +1177,14 @@ func (ex *Exec) havocModifies(st *State, fc *FuncContract, pc *preparedCall) {
 						lobj = ex.info.Uses[id]
 						lk = st.aliasLinks[lobj]
 					}
+					if sig.Params().At(i).Type() != nil {
+						if _, isMap := under(sig.Params().At(i).Type()).(*types.Map); isMap {
+							ex.checkMapParamWrite(pc.call.Pos(), pc.call.Args[i])
+						}
+					}
 					ex.assignTo(st, pc.call.Args[i], fresh, func(*State) {})
 					if lk != nil {
+						ex.checkMapParamWrite(pc.call.Pos(), lk.base)
 						// the callee mutated the map object the variable shares with base[key]
 						ex.writeBackLink(st, lobj, lk)
 					}
